@@ -1,0 +1,31 @@
+//go:build verif
+
+package reconciler
+
+import (
+	"context"
+	"time"
+
+	"github.com/go-logr/logr"
+
+	"github.com/jcmoraisjr/haproxy-ingress/pkg/controller/config"
+	"github.com/jcmoraisjr/haproxy-ingress/pkg/controller/services"
+)
+
+// VerifNewReconciler builds the IngressReconciler over the given services and the watchers
+// driven through VerifWatchers, without a manager (so without a work queue: the caller
+// does what controller-runtime does with the result of Reconcile).
+func VerifNewReconciler(cfg *config.Config, svc *services.Services, vw *VerifWatchers) *IngressReconciler {
+	return &IngressReconciler{
+		Config:   cfg,
+		Services: svc,
+		log:      logr.Discard(),
+		watchers: vw.w,
+	}
+}
+
+// VerifReconcile calls the real Reconcile with rparam{fullsync}.
+func (r *IngressReconciler) VerifReconcile(ctx context.Context, fullsync bool) (requeueAfter time.Duration, err error) {
+	res, err := r.Reconcile(ctx, rparam{fullsync: fullsync})
+	return res.RequeueAfter, err
+}
